@@ -4,6 +4,7 @@ import (
 	"fmt"
 	"go/token"
 	"go/types"
+	"strings"
 
 	"golang.org/x/tools/go/ssa"
 )
@@ -87,7 +88,17 @@ func r141(c *Ctx) {
 	bc := c.method("Buffer", "Close")
 	okOnce := false
 	for _, cs := range callsToName(bc, "(*sync.Once).Do") {
+		runsDiscard := false
 		if cl := closureFunc(cs.common().Args[1]); cl != nil && len(callsTo(cl, ds)) >= 1 {
+			runsDiscard = true
+		}
+		// the method value b.discardSpill itself
+		if mc, isMC := cs.common().Args[1].(*ssa.MakeClosure); isMC && len(mc.Bindings) == 1 && mc.Bindings[0] == ssa.Value(bc.Params[0]) {
+			if f, _ := mc.Fn.(*ssa.Function); f != nil && f.Synthetic != "" && f.Object() != nil && f.Object() == ds.Object() {
+				runsDiscard = true
+			}
+		}
+		if runsDiscard {
 			_, skip := reach(bc, nil, isReturn, func(in ssa.Instruction) bool { return in == cs.instr })
 			okOnce = !skip
 		}
@@ -98,18 +109,15 @@ func r141(c *Ctx) {
 	}
 	// creators close or transfer
 	nbr := c.fn("NewBufferedReadCloser")
-	var buf *ssa.Alloc
-	for _, b := range nbr.Blocks {
-		for _, in := range b.Instrs {
-			if a, ok := in.(*ssa.Alloc); ok && namedOf(a.Type()) == modulePath+"/internal/server.Buffer" {
-				buf = a
-			}
-		}
-	}
+	// the buffer being filled: the destination of the io.Copy (a literal, or one made by the other constructor)
+	var buf ssa.Value
 	okErrClose := false
 	var copyCall *ssa.Call
 	for _, cs := range callsToName(nbr, "io.Copy") {
 		copyCall = cs.instr.(*ssa.Call)
+		if d := stripConv(copyCall.Call.Args[0]); namedOf(d.Type()) == modulePath+"/internal/server.Buffer" {
+			buf = d
+		}
 	}
 	if buf != nil && copyCall != nil {
 		for _, ret := range normalReturns(nbr) {
@@ -117,7 +125,7 @@ func r141(c *Ctx) {
 				continue
 			}
 			for _, cs := range callsTo(nbr, bc) {
-				if cs.common().Args[0] == ssa.Value(buf) && dominates(cs.instr, ret) {
+				if stripConv(cs.common().Args[0]) == buf && dominates(cs.instr, ret) {
 					okErrClose = true
 				}
 			}
@@ -135,7 +143,7 @@ func r141(c *Ctx) {
 	}
 	for _, cs := range callsTo(rbm, bc) {
 		if d, ok := cs.instr.(*ssa.Defer); ok && next != nil && dominates(d, next) {
-			if call, ok := d.Call.Args[0].(*ssa.Call); ok && isCallTo(call.Common(), nbw) {
+			if tracesToCallOf(d.Call.Args[0], nbw, 0) {
 				okDefer = true
 			}
 		}
@@ -161,7 +169,8 @@ func r141(c *Ctx) {
 	for _, f := range []*ssa.Function{nbr, nbw} {
 		for _, u := range c.usesOfFunc(f) {
 			o := fname(outer(u.in))
-			ok := o == "(*server.RequestBufferMiddleware).ServeHTTP" || o == "(*server.ResponseBufferMiddleware).ServeHTTP"
+			ok := o == "(*server.RequestBufferMiddleware).ServeHTTP" || o == "(*server.ResponseBufferMiddleware).ServeHTTP" ||
+				(f == nbw && o == "server.NewBufferedReadCloser") // one constructor may build on the other: its own error path and its callers are checked above
 			c.ob(rule, "call "+f.Name()+" <- "+o, u.instr.Pos(), ok, false, "buffers are created only by the two buffering middlewares (whose cleanup is checked above)")
 		}
 	}
@@ -198,7 +207,7 @@ func r142(c *Ctx) {
 		_, onErr := nilKnowledge(s.instr, sameAs(e))
 		isTooBig := false
 		for _, ce := range dominatingConds(s.instr.Block()) {
-			if cm, ok := ce.asCmp(); ok && cm.op == token.EQL && ((cm.x == e && isLoadOfGlobal(cm.y, tooBig)) || (cm.y == e && isLoadOfGlobal(cm.x, tooBig))) {
+			if cm, ok := ce.asCmp(); ok && cm.op == token.EQL && ((nonNilSource(cm.x) == e && isLoadOfGlobal(cm.y, tooBig)) || (nonNilSource(cm.y) == e && isLoadOfGlobal(cm.x, tooBig))) {
 				isTooBig = true
 			}
 			if call, ok := ce.cond.(*ssa.Call); ok && ce.taken && calleeName(call.Common()) == "errors.Is" && isLoadOfGlobal(call.Call.Args[1], tooBig) {
@@ -409,6 +418,9 @@ func r144(c *Ctx, rule string) {
 		// no further condition may exempt a write from the limit
 		extra := 0
 		for _, ce := range dominatingConds(ret.Block()) {
+			if _, isPhi := ce.cond.(*ssa.Phi); isPhi {
+				continue // a merged boolean (`a && b` computed by a helper): its operands are listed as well
+			}
 			cm, ok := ce.asCmp()
 			if ok && (isLoadOfField(cm.x, maxF) || isLoadOfField(cm.y, maxF)) {
 				continue
@@ -433,12 +445,34 @@ func r144(c *Ctx, rule string) {
 				bounded, how = true, "slice p[:maxMemBytes-memBytesWritten]"
 			}
 		} else if arg == ssa.Value(w.Params[1]) {
+			// memBytesWritten + n <= maxMemBytes, in any arrangement of the three terms (n <= maxMemBytes - memBytesWritten, ...)
 			for _, ce := range dominatingConds(cs.instr.Block()) {
 				cm, ok := ce.asCmp()
-				if ok && (cm.op == token.LEQ || cm.op == token.LSS) && isLoadOfField(cm.y, maxMemF) {
-					if bo, ok := cm.x.(*ssa.BinOp); ok && bo.Op == token.ADD && (isLoadOfField(bo.X, memWrittenF) || isLoadOfField(bo.Y, memWrittenF)) {
-						bounded, how = true, "guard memBytesWritten+len(p) <= maxMemBytes"
+				if !ok {
+					continue
+				}
+				terms := map[string]int{}
+				linearTerms(cm.x, 1, terms)
+				linearTerms(cm.y, -1, terms)
+				op := cm.op
+				if op == token.GEQ || op == token.GTR {
+					for k := range terms {
+						terms[k] = -terms[k]
 					}
+					op = map[token.Token]token.Token{token.GEQ: token.LEQ, token.GTR: token.LSS}[op]
+				}
+				others := 0
+				for k, n := range terms {
+					if n != 0 && k != "field:"+memWrittenF.Name() && k != "field:"+maxMemF.Name() {
+						if n == 1 {
+							others++
+						} else {
+							others = 99
+						}
+					}
+				}
+				if (op == token.LEQ || op == token.LSS) && terms["field:"+memWrittenF.Name()] == 1 && terms["field:"+maxMemF.Name()] == -1 && others == 1 {
+					bounded, how = true, "guard memBytesWritten+len(p) <= maxMemBytes"
 				}
 			}
 		}
@@ -654,4 +688,94 @@ func r147(c *Ctx) {
 			"the buffering middlewares may replace the request body only (e.g. recomputing Content-Length from a partial count truncates chunked uploads)")
 	}
 	c.ob(rule, "request-buffering-replaces-body", c.method("RequestBufferMiddleware", "ServeHTTP").Pos(), n >= 1, false, "")
+}
+
+// tracesToCallOf: v is the result of a call of callee, directly, through single-assignment locals, or through a field
+// of a local struct literal that was initialised with it (`w := &wrapper{buffer: NewX()}; defer w.buffer.Close()`).
+func tracesToCallOf(v ssa.Value, callee *ssa.Function, depth int) bool {
+	if depth > 4 {
+		return false
+	}
+	v = resolve(stripConv(v))
+	if call, ok := v.(*ssa.Call); ok && isCallTo(call.Common(), callee) {
+		return true
+	}
+	if f, base, ok := fieldLoad(v); ok {
+		a, isAlloc := resolve(base).(*ssa.Alloc)
+		if !isAlloc {
+			return false
+		}
+		n, all := 0, true
+		for _, r := range *a.Referrers() {
+			fa, isFA := r.(*ssa.FieldAddr)
+			if !isFA {
+				continue
+			}
+			if st := derefStruct(fa.X.Type()); st == nil || st.Field(fa.Field) != f {
+				continue
+			}
+			for _, rr := range *fa.Referrers() {
+				if store, isSt := rr.(*ssa.Store); isSt && store.Addr == ssa.Value(fa) {
+					n++
+					if !tracesToCallOf(store.Val, callee, depth+1) {
+						all = false
+					}
+				}
+			}
+		}
+		return n >= 1 && all
+	}
+	return false
+}
+
+// linearTerms adds the terms of a +/- expression to out with their signs; field loads are keyed by field name
+// (object-insensitive), constants by value, anything else by identity.
+func linearTerms(v ssa.Value, sign int, out map[string]int) {
+	switch x := v.(type) {
+	case *ssa.BinOp:
+		if x.Op == token.ADD {
+			linearTerms(x.X, sign, out)
+			linearTerms(x.Y, sign, out)
+			return
+		}
+		if x.Op == token.SUB {
+			linearTerms(x.X, sign, out)
+			linearTerms(x.Y, -sign, out)
+			return
+		}
+	case *ssa.Convert:
+		if _, isBasic := x.X.Type().Underlying().(*types.Basic); isBasic {
+			linearTerms(x.X, sign, out)
+			return
+		}
+	case *ssa.Const:
+		if k, ok := constInt(x); ok {
+			out["const"] += sign * int(k)
+			return
+		}
+	}
+	if f, _, ok := fieldLoad(v); ok {
+		out["field:"+f.Name()] += sign
+		return
+	}
+	// a one-line arithmetic accessor of the module (`func (b *Buffer) memoryRemaining() int64 { return b.max - b.used }`)
+	if call, ok := v.(*ssa.Call); ok {
+		if g := call.Call.StaticCallee(); g != nil && g.Pkg != nil && strings.HasPrefix(g.Pkg.Pkg.Path(), modulePath) && len(g.Blocks) == 1 && len(g.Params) == 1 {
+			if ret, ok := g.Blocks[0].Instrs[len(g.Blocks[0].Instrs)-1].(*ssa.Return); ok && len(ret.Results) == 1 {
+				pure := true
+				for _, in := range g.Blocks[0].Instrs {
+					switch in.(type) {
+					case *ssa.FieldAddr, *ssa.UnOp, *ssa.BinOp, *ssa.Return, *ssa.DebugRef, *ssa.Convert, *ssa.Field:
+					default:
+						pure = false
+					}
+				}
+				if pure {
+					linearTerms(ret.Results[0], sign, out)
+					return
+				}
+			}
+		}
+	}
+	out[fmt.Sprintf("val:%p", v)] += sign
 }
